@@ -1,4 +1,5 @@
 pub mod compile;
 pub mod drawhist;
+pub mod histmodels;
 pub mod ift;
 pub mod sched;
